@@ -8,6 +8,7 @@ from lib import *
 import signal
 import traceback
 
+IMPORTS_IT = 'From Tranp Require Import Model.ExnFlow Model.Interactive.'
 IMPORTS = 'From Tranp Require Import Model.ExnFlow.'
 BASE = '''class K:
 	n: int
@@ -314,6 +315,7 @@ def matrix(ctx: Ctx) -> None:
                           dict(input=dict(source=src, path='memory'), impl_result=list(res)))
 
 
+EXIT = '<exit>'      # marker in a session: the word exit typed at the prompt
 IT_VALID = [('z: int = 9', 'int z = 9;'), ('def ok(a: int) -> int:\n\treturn a + 1', 'return a + 1;'), ('class P:\n\tn: int = 3', 'class P')]
 IT_FAILING = ['from __main__ import a', '@__actual__()\ndef f() -> None: ...', 'x: foo.Bar = 1', 'a = (1', 'a: int = b', 'def f(:', 'x: len.y = 1', ')', '"', "'" * 3, 'v: None[int] = 1', 'class G([T]):\n\tpass', 'def f(a: int) -> int:\n\treturn a + missing', 'if True:\n        a = 1\n    b = 2', 'return 1']
 
@@ -337,6 +339,9 @@ def interactive_session(seq):
                            '    immutable_param_types: [std::string, std::vector, std::map, std::function]', '']))
     keys = []
     for prog in seq:
+        if prog == EXIT:
+            keys.append('exit')
+            continue
         if prog:
             keys.extend(prog.split('\n'))
         keys.append('')
@@ -380,16 +385,53 @@ def interactive(ctx: Ctx) -> None:
             seq.append('' if k < .15 else rnd.choice(IT_FAILING) if k < .6 else rnd.choice(v))
         seq.append(rnd.choice(v))
         sessions.append(seq)
+    # sessions with `exit` typed in the middle: what follows stays unread
+    sessions += [[v[0], EXIT, v[1]], [IT_FAILING[0], '', EXIT, v[2], IT_FAILING[1]]]
+    outcome_of = {}
+    line_ids = {}
+    icases, iraw = [], []
     for seq in sessions:
         ending, unread, printed = interactive_session(seq)
-        missing = [m for prog in seq for p, m in IT_VALID if prog == p and m not in printed]
+        before_exit = seq[:seq.index(EXIT)] if EXIT in seq else seq
+        missing = [m for prog in before_exit for p, m in IT_VALID if prog == p and m not in printed]
+        # ---- correspondence with Model/Interactive.v: keys, the outcome of each program on its own, what the loop did ----
+        for prog in set(before_exit):
+            if prog not in outcome_of:
+                res = classify(lambda: __import__('tsession').Session({'__main__': prog + '\n' if prog else ''}).transpile('__main__'))
+                outcome_of[prog] = {'ok': 'Ok', 'app': 'App'}.get(res[0], 'Leak')
+        keys = []
+        for prog in seq:
+            if prog == EXIT:
+                keys.append('KExit')
+                continue
+            for line in (prog.split('\n') if prog else []):
+                keys.append('(KLine %d)' % line_ids.setdefault(line, len(line_ids)))
+            keys.append('KBlank')
+        keys.append('KExit')
+        table = coq_list(coq_pair(coq_list(str(line_ids[l]) for l in (prog.split('\n') if prog else [])), outcome_of[prog]) for prog in sorted(set(before_exit)))
+        events = [m.group(1) for m in re.finditer(r'(Result:\n---------------|Stacktrace:)', printed)]
+        icases.append(coq_pair(coq_list(keys), table, 'Returned' if ending == 'returned' else 'Escaped', coq_list('true' if e.startswith('Result') else 'false' for e in events), coq_nat(unread)))
+        iraw.append(dict(session=seq, ending=ending, unread=unread, events=events))
         ctx.evaluations += 1
         ctx.case(('interactive', tuple(seq)), any(p not in v for p in seq))
         ctx.count('interactive:%s' % ending)
-        if ending != 'returned' or unread or missing:
-            what = ending if ending != 'returned' else ('unread-input' if unread else 'valid-program-not-transpiled')
+        expected_unread = (len([l for prog in seq[seq.index(EXIT) + 1:] for l in (prog.split('\n') if prog else [])]) + len(seq[seq.index(EXIT) + 1:]) + 1) if EXIT in seq else 0
+        if ending != 'returned' or unread != expected_unread or missing:
+            what = ending if ending != 'returned' else ('unread-input' if unread != expected_unread else 'valid-program-not-transpiled')
             ctx.violation('interactive:%s' % what, 'the interactive loop does not survive a session (%s): %d key lines unread, %d valid programs without output' % (what, unread, len(missing)),
                           dict(input=dict(source='\n<blank line>\n'.join(seq), session=seq, path='interactive'), impl_result=[ending, printed[-600:]]))
+    interactive_correspondence(ctx, icases, iraw)
+
+
+def interactive_correspondence(ctx: Ctx, icases, iraw) -> None:
+    prelude = ('Definition peq (a b : list nat) : bool := if list_eq_dec Nat.eq_dec a b then true else false.\n'
+               'Fixpoint look (t : list (list nat * outcome)) (p : list nat) : outcome := match t with [] => Ok | (q, o) :: r => if peq q p then o else look r p end.\n'
+               'Definition kinds (es : list event) : list bool := map (fun e => match e with EvResult _ => true | EvError _ => false end) es.\n'
+               'Definition beq (a b : list bool) : bool := if list_eq_dec Bool.bool_dec a b then true else false.\n'
+               'Definition endeq (a b : ending) : bool := match a, b with Returned, Returned | Escaped, Escaped => true | _, _ => false end.\n')
+    ctx.correspond('interactive_loop', 'From Tranp Require Import Model.ExnFlow Model.Interactive.', 'list key * list (list nat * outcome) * ending * list bool * nat',
+                   'fun c => match c with (keys, t, e, evs, unread) => match session (look t) keys with (e2, evs2, rest) => '
+                   'endeq e e2 && beq (kinds evs2) evs && (match e with Returned => Nat.eqb (length rest) unread | Escaped => true end) end end', icases, iraw, prelude)
 
 
 def replay(ctx: Ctx, data: dict) -> int:
